@@ -852,7 +852,11 @@ void init_binaries () {
       if (CONFIG_STR(__SIMUL_EFUN_FILE__))
         {
           struct stat st;
-          if (0 == stat (CONFIG_STR(__SIMUL_EFUN_FILE__), &st))
+          const char *simul_efun_file = CONFIG_STR(__SIMUL_EFUN_FILE__);
+          /* the name is relative to the mudlib directory (the current directory), like every LPC file name */
+          while (*simul_efun_file == '/')
+            simul_efun_file++;
+          if (0 == stat (simul_efun_file, &st))
             {
               config_id = (uint64_t)st.st_mtime;
             }
